@@ -44,18 +44,41 @@ TECHNIQUE = "runtime monitoring: attribute-write tap + history-free shadow execu
 def floors(tier):
     q = tier == "quick"
     return {"frame/no-write": 6000 if q else 600000, "history-free": 6000 if q else 600000,
-            "history-free/feedback": 4000 if q else 400000,
+            "history-free/feedback": 4000 if q else 400000, "history-free/after-failing-call": 300 if q else 30000,
             "threads/call": 1500 if q else 160000, "preempt/run": 3000 if q else 200000, "hashseed/digest": 3 if q else 5,
             "process-order/call": 2000 if q else 60000}
 
 
 # ------------------------------------------------------------------------------------------- workload
-def gen_ops(rng, cfg, nops, kmax=5, pmax=3):
+REJECTS = ["foreign_last", "none_first", "ranks_short", "ranks_str", "both", "teams_tuple", "one_team", "empty_team"]
+
+
+def gen_ops(rng, cfg, nops, kmax=5, pmax=3, failing=0.0):
+    """failing > 0: that share of the operations FAIL - a malformed call that is rejected, or (when the model's gamma is
+    the 'boom' callback) a rate call in the middle of which the application's callback raises.  The calls after them must
+    still return their history-free results."""
     ops = []
     pool = {}
     for _ in range(nops):
         teams, regime = gen.gen_teams(rng, cfg["beta"], kmax=kmax, pmax=pmax,
                                       regime=rng.choice(["typical", "wide", "mismatch", "equal_size", "huge_sigma", "identical"]))
+        if failing and rng.random() < failing:
+            if cfg.get("gamma") == "boom" and rng.random() < 0.5:
+                i = rng.randrange(len(teams))
+                teams[i] = [[teams[i][0][0] + 0.01 * j * cfg["beta"], teams[i][0][1], f"b{j}"] for j in range(5)]
+                lv = gen.weak_order(rng, len(teams))
+                sel, vals, _ = gen.outcome_kwargs(rng, lv, style="int")
+                call = {}
+                if rng.random() < 0.5:
+                    call["tau"] = rng.choice([0, cfg["beta"], 10 * cfg["beta"]])
+                if rng.random() < 0.5:
+                    call["limit_sigma"] = rng.choice([True, False])
+                ops.append(dict(op="boom", teams=teams, sel=sel, vals=vals, call=call))
+            else:
+                ops.append(dict(op="reject", how=rng.choice(REJECTS), teams=teams,
+                                target=rng.choice(["rate", "rate", "predict_win", "predict_draw", "predict_rank"]),
+                                call=rng.choice([{}, dict(tau=10 * cfg["beta"], limit_sigma=True)])))
+            continue
         r = rng.random()
         if r < 0.6:
             k = len(teams)
@@ -88,12 +111,21 @@ def generate(ctx):
         # make the options matter: big tau so limit_sigma binds when on
         if ctx.rng.random() < 0.5:
             cfg["tau"] = cfg["beta"] * ctx.rng.choice([1, 3])
-        ops = gen_ops(ctx.rng, cfg, ctx.rng.randint(5, 50 if ctx.tier == "thorough" else 25))
+        failing = 0.0
+        if ctx.rng.random() < 0.3:
+            failing = 0.25
+            if ctx.rng.random() < 0.6:
+                cfg["gamma"] = "boom"
+        ops = gen_ops(ctx.rng, cfg, ctx.rng.randint(5, 50 if ctx.tier == "thorough" else 25), failing=failing)
+        if ctx.rng.random() < 0.1:
+            cfg["_modelsub"] = True  # the long-lived model is an instance of an application-side subclass
         yield "seq", dict(model=m, cfg=cfg, ops=ops, idmode=ctx.rng.choice(["default", "sorted", "reversed", "equal", "swapnames"]))
     for _ in range(ctx.budget(300, 24000)):
         m = ctx.rng.choice(MODEL_NAMES)
         cfg = league.league_cfg(ctx.rng, gen)
         cfg["tau"] = cfg["beta"] * ctx.rng.choice([0.02, 0.3, 1.0])
+        if ctx.rng.random() < 0.25:
+            cfg["gamma"] = "boom"  # the application's callback fails for some games (teams of five), in the middle of rate
         yield "fb", dict(model=m, cfg=cfg, players=ctx.rng.randint(6, 14), steps=ctx.rng.randint(10, 40 if ctx.tier == "quick" else 120),
                          seed=ctx.rng.randrange(2 ** 31))
     for _ in range(ctx.budget(40, 2400)):
@@ -153,6 +185,39 @@ def _numbers(op, res):
     if op["op"] == "predict_draw":
         return [res]
     return [x for pair in res for x in (float(pair[0]), pair[1])]
+
+
+def run_failing(model, op, Ms):
+    """a call that is expected to fail: returns (Obs, expected exception classes)"""
+    teams = _mk_teams(model, op)
+    if op["op"] == "boom":
+        from ..util import CallbackFailure
+
+        return observe(model, "rate", teams, **_kw(op)), (CallbackFailure,)
+    how, target = op["how"], op["target"]
+    kw = dict(op.get("call") or {}) if target == "rate" else {}
+    n = len(teams)
+    if how == "foreign_last":
+        other = next(nm for nm in MODEL_NAMES if not isinstance(model, Ms[nm]))
+        teams[-1][-1] = Ms[other]().rating(teams[-1][-1].mu, teams[-1][-1].sigma)
+    elif how == "none_first":
+        teams[0][0] = None
+    elif how == "teams_tuple":
+        teams = tuple(teams)
+    elif how == "one_team":
+        teams = teams[:1]
+    elif how == "empty_team":
+        teams[-1] = []
+    elif target != "rate":
+        teams[n // 2] = tuple(teams[n // 2])  # the selector faults only exist for rate
+    elif how == "ranks_short":
+        kw["ranks"] = list(range(n - 1)) or [1, 2, 3]
+    elif how == "ranks_str":
+        kw["scores"] = [str(i) for i in range(n)]
+    elif how == "both":
+        kw["ranks"] = list(range(n))
+        kw["scores"] = list(range(n))
+    return observe(model, target, teams, **kw), (TypeError, ValueError)
 
 
 def run_op(model, op, idmode=None, tag="", watch_globals=False, consts=None):
@@ -225,6 +290,22 @@ def probe_seq(ctx, payload):
     prev_call = None
     consts = {}
     for pos, op in enumerate(ops):
+        if op["op"] in ("reject", "boom"):
+            # a FAILING call in the history: judged here only for what C14 states (no attribute of the model changes, by
+            # any call); what it raises is C13's business.  The calls after it are compared with their history-free results.
+            o, expected = run_failing(model, op, Ms)
+            ctx.ev("frame/no-write")
+            ctx.ev("history/failing-call")
+            ctx.bucket("failing_calls", f"{op['op']}:{op.get('how', '')}:{type(o.exc).__name__ if o.exc is not None else 'returned'}")
+            ch = attrs_changed(o)
+            if o.writes or ch:
+                ctx.violation("frame/model-write", "seq", payload,
+                              dict(pos=pos, op=op["op"], how=op.get("how"), failing_call=True, writes=[w[:3] for w in o.writes[:5]],
+                                   attrs_changed=ch[:5]), model_name, f"{op['op']}/failing")
+            if o.exc is not None and isinstance(o.exc, expected):
+                ctx.count("failing_calls_that_raised_as_expected")
+            consts["__prev_teams__"] = None
+            continue
         o, nums = run_op(model, op, payload["idmode"], tag=f"s{pos}-", watch_globals=(pos % 4 == 0), consts=consts)
         reg = f"{op['op']}/{payload['idmode']}"
         if o.exc is not None:
@@ -254,6 +335,9 @@ def probe_seq(ctx, payload):
                                got=(nums or [None])[first or 0], want=(want or [None])[first or 0], idmode=payload["idmode"]),
                           model_name, reg)
         nt = pos > 0 and (op.get("call") or {}) != (prev_call or {})
+        if pos > 0 and ops[pos - 1]["op"] in ("reject", "boom"):
+            ctx.ev("history-free/after-failing-call")
+            nt = True
         ctx.case(dict(s=payload["ops"][0]["teams"][0][0], n=len(ops), p=pos, m=model_name), nt or payload["idmode"] != "default")
         ctx.bucket("op", op["op"])
         ctx.bucket("idmode", payload["idmode"])
@@ -347,6 +431,7 @@ def probe_fb(ctx, payload):
     pool = [model.rating(rng.gauss(6 * beta, 2 * beta), abs(rng.gauss(2 * beta, 0.5 * beta)) + 0.05 * beta, f"F{i}")
             for i in range(payload["players"])]
     prev_call = None
+    after_fail = False
     for step in range(payload["steps"]):
         k = rng.choice([2, 2, 3, 4])
         sizes = [rng.choice([1, 1, 2]) for _ in range(k)]
@@ -360,6 +445,32 @@ def probe_fb(ctx, payload):
         teams = [[pool[i] for i in t] for t in tidx]
         vals = [[[p.mu, p.sigma, p.name] for p in t] for t in teams]
         r = rng.random()
+        if cfg.get("gamma") == "boom" and rng.random() < 0.12:
+            # a FAILING step on the persistent objects: a malformed call, or a rate call whose callback raises half-way
+            # (a team of five).  Whatever state the objects are left in is what the next steps start from (their values
+            # are re-read), and those steps must return the history-free results for these values.
+            if rng.random() < 0.5 and len(pool) >= 7:
+                idx5 = rng.sample(range(len(pool)), 7)
+                bteams = [[pool[i] for i in idx5[:5]], [pool[idx5[5]]], [pool[idx5[6]]]]
+                rng.shuffle(bteams)
+                o = observe(model, "rate", bteams, ranks=[rng.randrange(3) for _ in range(3)],
+                            **rng.choice([{}, dict(limit_sigma=True), dict(tau=3 * beta)]))
+                what = "boom"
+            else:
+                o = observe(model, rng.choice(["rate", "predict_win", "predict_draw", "predict_rank"]), teams + [[None]])
+                what = "reject"
+            ctx.ev("frame/no-write")
+            ctx.ev("history/failing-call")
+            ctx.bucket("failing_calls", f"feedback/{what}:{type(o.exc).__name__ if o.exc is not None else 'returned'}")
+            ch = attrs_changed(o)
+            if o.writes or ch:
+                ctx.violation("frame/model-write", "fb", payload, dict(step=step, failing_call=what, writes=[w[:3] for w in o.writes[:5]],
+                                                                      attrs_changed=ch[:5]), model_name, f"feedback/{what}")
+            if what == "boom" and o.exc is None:
+                # the callback did not fire (a refactor may call it differently): objects were rated normally, keep them
+                pass
+            after_fail = True
+            continue
         if r < 0.7:
             lv = gen.weak_order(rng, k)
             sel, v, _ = gen.outcome_kwargs(rng, lv)
@@ -398,6 +509,9 @@ def probe_fb(ctx, payload):
             for t_i, t_out in zip(tidx, o.res):
                 for i, p in zip(t_i, t_out):
                     pool[i] = p
+        if after_fail:
+            ctx.ev("history-free/after-failing-call")
+            after_fail = False
         ctx.case(dict(f=payload["seed"], s=step), step > 0)
     ctx.bucket("feedback_sequences", KIND[model_name])
 
